@@ -57,6 +57,10 @@ type Ctx struct {
 // rules, re-labelled "<thisProperty>.<tag><rule suffix>" — used where one structural clause is
 // a necessary condition of several properties (e.g. "never resolve a live lock" for C02 and C04).
 func (c *Ctx) Import(run func(*Ctx), fromProp string, keep []string, tag string) {
+	if c.rename != nil {
+		// already inside an imported rule set: only that set's own rules are taken
+		return
+	}
 	old := c.rename
 	c.rename = func(r string) (string, bool) {
 		for _, k := range keep {
